@@ -29,9 +29,9 @@ C17_STRONG = {'plain', 'extra', 'dashed_sav', 'enum_str', 'collections',
               'scalars'}
 
 
-def write_models():
+def write_models(dimplicit=None):
     os.makedirs(BUILD, exist_ok=True)
-    data = json.dumps(catalogue.build(), sort_keys=True)
+    data = json.dumps(catalogue.build(dimplicit), sort_keys=True)
     tmp = MODELS_JSON + '.%d' % os.getpid()
     with open(tmp, 'w') as f:
         f.write(data)
@@ -39,9 +39,10 @@ def write_models():
     return hashlib.sha1(data.encode()).hexdigest()
 
 
-def tlc_cases(cfg, module='MC_LoadRef', timeout=7200, extra_files=()):
+def tlc_cases(cfg, module='MC_LoadRef', timeout=7200, extra_files=(),
+              dimplicit=None):
     """Run (or reuse) a TLC exploration; returns (stats dict, cases)."""
-    mh = write_models()
+    mh = write_models(dimplicit)
     h = hashlib.sha1(mh.encode())
     for fn in ('YatimlLoad.tla', 'LoadRef.tla', module + '.tla', cfg) + \
             tuple(extra_files):
@@ -73,6 +74,15 @@ def tlc_cases(cfg, module='MC_LoadRef', timeout=7200, extra_files=()):
                 c['doc']['h'] = []
             if not isinstance(c['log'], list):
                 c['log'] = []
+            for n in c['doc']['h']:
+                if not isinstance(n['c'], list):
+                    n['c'] = []
+            if 'dumped' in c:
+                if not isinstance(c['dumped']['h'], list):
+                    c['dumped']['h'] = []
+                for n in c['dumped']['h']:
+                    if not isinstance(n['c'], list):
+                        n['c'] = []
         tmp = path + '.tmp'
         with open(tmp, 'w') as f:
             json.dump({'stats': stats, 'cases': r.cases}, f)
